@@ -68,6 +68,16 @@ FaultScenarios(store) ==
     Scn("usepar", CfgStore(store), <<Push("A", "ok", "code_token", Full, <<>>, "sent", "none", 0)>>, <<UsePar("A", "own", 1, "none")>>,
         <<UsePar("A", "own", 1, "none"), RedeemOK(1)>>),
     Scn("devpoll", [CfgStore(store) EXCEPT !.rscopes = <<>>], DevPre, <<DevPoll("P", "ok", 1)>>, <<DevPoll("P", "ok", 1), DevPoll("P", "ok", 1)>>) }
+(* C17 under storage failures: a request_uri starts at most one authorization whatever fails while it is pushed or
+   redeemed; the failed attempt is followed by a second, a third use and the redemption of whatever codes came out *)
+ParFaultScenarios(store) ==
+  { Scn("par_use", CfgStore(store), <<Push("A", "ok", "code", <<"offline", "a">>, <<>>, "sent", "none", 0)>>, <<UsePar("A", "own", 1, "none")>>,
+        <<UsePar("A", "own", 1, "none"), UsePar("A", "own", 1, "none"), RedeemOK(1)>>),
+    Scn("par_use_hybrid", CfgStore(store), <<Push("A", "ok", "code_token", Full, <<>>, "sent", "none", 0)>>, <<UsePar("A", "own", 1, "none")>>,
+        <<UsePar("B", "own", 1, "none"), UsePar("A", "own", 1, "none"), UsePar("A", "own", 1, "none")>>),
+    Scn("par_push", CfgStore(store), <<>>, <<Push("A", "ok", "code", <<"offline", "a">>, <<>>, "sent", "none", 0)>>,
+        <<UsePar("A", "own", 1, "none"), UsePar("A", "own", 1, "none")>>) }
+ScnParFault == ParFaultScenarios("mem") \cup ParFaultScenarios("tx")
 ScnFaultTx == FaultScenarios("tx")
 ScnFaultMem == FaultScenarios("mem")
 
@@ -168,6 +178,10 @@ DeliveredOnlyOnSuccess ==
        /\ procs[p].out.at # 0 /\ G.st.S.at[procs[p].out.at].dl
 RetryStillGuarded == stepok = {}       \* every guard of Grants holds for the retry and the replay after the fault
 StateInv == Running = {} => StateInvariant(G.st) \/ Len(procs) > 1
+
+(* C17 *)
+ParAtMostOnce ==       \* scenarios with ONE pushed request and no plain authorization: at most one code / front-channel token ever comes out
+  sc.name \in {"par_use", "par_use_hybrid", "par_push"} => Count(G.st.S.code) <= 1
 
 (* C19 *)
 HandedOutActiveOrKilledByPeer ==
